@@ -255,7 +255,7 @@ KINDS = "bcyi"
 
 
 def gen_run(rng):
-    """<sample_count> <sample_size|t> <threads> <opt/pre/inp/post kinds> <alloc> <seed>"""
+    """<sample_count> <sample_size|t> <threads> <opt/pre/inp/post kinds> <allocator behaviour> <seed>"""
     def subset(p):
         return "".join(k for k in KINDS if rng.random() < p) or "-"
     k = rng.random()
@@ -278,7 +278,7 @@ def gen_run(rng):
         spec = f"{subset(0.25)}/{subset(0.25)}/{subset(0.3)}/{subset(0.15)}"
     size = "t" if rng.random() < 0.2 else str(rng.choice([0, 1, 1, 2, 3, 8]))
     count = rng.choice([0, 1, 2, 3, 4, 5, 8, 20]) if size != "t" else rng.choice([1, 2, 3, 5])
-    return f"{count} {size} {rng.choice([1, 1, 2, 3])} {spec} {rng.randrange(2)} {rng.randrange(1000)}"
+    return f"{count} {size} {rng.choice([1, 1, 2, 3])} {spec} {rng.choice('0aofsgmmm')} {rng.randrange(1000)}"
 
 
 # --------------------------------------------------------------------------
@@ -334,9 +334,12 @@ def streams(tier, rng):
         runs += [f"3 2 1 {kind}/-/{kind}/- 0 7", f"3 2 1 -/{kind}/{kind}/- 0 7", f"4 1 2 {kind}/{kind}/{kind}/- 1 5",
                  f"2 t 1 {kind}/-/{kind}/- 0 3", f"3 2 1 -/-/{kind}/{kind} 0 7", f"2 t 1 -/-/{kind}/{kind} 0 3",
                  f"4 1 2 {kind}/-/bi/{kind} 1 5"]
+    for mode in "0aofsgm":      # what the timed section does with the allocator (memory may be acquired outside it)
+        runs += [f"3 2 1 -/-/-/- {mode} 7", f"4 1 2 -/-/i/- {mode} 5", f"6 3 1 -/-/-/- {mode} 11"]
+    runs += ["8 2 1 -/-/-/- m 21", "8 1 1 b/-/b/- m 2", "2 t 1 -/-/-/- f 3", "2 t 1 -/-/-/- s 4"]
     runs += ["0 2 1 -/-/-/- 0 1", "2 0 1 -/-/b/- 1 3", "1 1 1 -/-/-/- 0 1", "3 2 1 -/-/b/- 1 7", "4 1 2 -/c/i/- 1 5",
              "5 3 1 -/i/-/- 0 9", "2 1 3 bc/y/bi/- 1 4", "0 2 1 i/-/i/- 0 1", "3 3 1 bi/ci/bci/- 1 11"]
-    while len(runs) < (160 if quick else 3000):
+    while len(runs) < (220 if quick else 3500):
         runs.append(gen_run(rng))
 
     def nt(c, m):
@@ -358,10 +361,12 @@ def streams(tier, rng):
                nontrivial=lambda c, m: m.startswith("IN ") and len(m.split(" ")) > 2 and m.split(" ")[2].count(",") >= 1,
                describe="real Bencher runs (sample_count, explicit or tuned sample_size, threads 1..3, constant counters from the "
                         "options and from Bencher::counter (before and after input_counter) combined with input_counter of the same "
-                        "and of other kinds, "
+                        "and of other kinds, the timed section allocating+freeing / only allocating / only freeing / only "
+                        "shrinking / only growing memory (acquired by the generator) / nothing / a per-input mix, "
                         "allocating or not, AllocProfiler installed): the stored per-input counts must be one per recorded "
                         "sample with that sample's own value (the harness knows the inputs it generated), a kind whose last word "
-                        "was a constant stores exactly that constant and is not per-input, and compute_stats "
+                        "was a constant stores exactly that constant and is not per-input, the allocation records are exactly "
+                        "the samples with a non-zero tally row each carrying its own rows, and compute_stats "
                         "on what the run recorded; model driven by the recording"),
         Stream("real-runs-release", "run_rel", runs[: len(runs) // 2], compare=compare_run, model_input=mi, release=True,
                nontrivial=lambda c, m: m.startswith("IN ") and len(m.split(" ")) > 2 and m.split(" ")[2].count(",") >= 1),
